@@ -25,6 +25,7 @@ for id in sorted(conf):
         else:
             out="not detected"; first=""
         if run!=prop: out+=" — %s is not claimed"%prop
+        if r.get('note'): out+=" ("+r['note']+")"
     lines.append(f"| {id} | {prop} | {c['status']} | {run} | {out} | {first} |")
     mp=f'{S}/{id}/meta.json'
     try: m=json.load(open(mp))
